@@ -160,9 +160,11 @@ func specUploader(u *uploader) bool {
 //@   loop 1: invariant forall i int :: 0 <= i && i <= rangeindex ==> filepath.Base(todo.readyfiles[i]) != date+".json"
 //@   modifies nothing
 
+// deleteFiles removes the files it is given and nothing else.
 //@ contract (*uploader).deleteFiles
 //@   requires uploaderOK(u)
 //@   requires $mode != "off"
+//@   at call Remove#1: assert arg0 == files[rangeindex]
 //@   modifies $fsops
 
 // tooOld: the date is parsed as a day (DateOnly); a date that does not parse is
@@ -203,8 +205,13 @@ func specUploader(u *uploader) bool {
 //@   ensures $fsops == old($fsops)
 //@   modifies nothing
 
+// exclusiveWrite creates the file exclusively (an existing report is never
+// overwritten: the open fails instead) and reports "not acquired, no error" when it
+// existed already.
 //@ contract exclusiveWrite
 //@   requires $mode != "off"
+//@   at call OpenFile#1: assert arg0 == filename && arg1&os.O_EXCL != 0 && arg1&os.O_CREATE != 0 && arg1&os.O_TRUNC == 0
+//@   at call Write#1: assert issub(arg1, content, 0, len(content))
 //@   modifies $fsops, $minsize
 
 // findProgReport: the entry a count file's counters are added to carries exactly
